@@ -88,13 +88,22 @@ class stubbed_projections:
         cls.calc_proj_eq_constraint = lambda self_: with_stacked(self_, uf_apply("Peq", self_.to_stacked_vector(), ce))
         cls.calc_proj_ineq_constraint = lambda self_: with_stacked(self_, uf_apply("Pineq", self_.to_stacked_vector(), ci))
 
+        def on_stacked(name, conc, c_sys, var, flag):
+            # the library's own Dykstra loop calls the variable-level projections on the stacked vector (flag False); a caller that
+            # passes the free variables instead (flag True) gets the same uninterpreted map applied through the class' own conversions
+            if flag is False:
+                return uf_apply(name, var, conc)
+            try:
+                st = cls.convert_var_to_stacked_vector(c_sys, var, on_para_eq_constraint=flag)
+                return cls.convert_stacked_vector_to_var(c_sys, uf_apply(name, st, conc), on_para_eq_constraint=flag)
+            except TypeError as e:
+                raise core.StubMiss(f"uninterpreted projection called with on_para_eq_constraint={flag!r}: {e}")
+
         def eqv(c_sys, var, on_para_eq_constraint=True, **kw):
-            assert on_para_eq_constraint is False
-            return uf_apply("Peq", var, ce)
+            return on_stacked("Peq", ce, c_sys, var, on_para_eq_constraint)
 
         def inv(c_sys, var, on_para_eq_constraint=True, **kw):
-            assert on_para_eq_constraint is False
-            return uf_apply("Pineq", var, ci)
+            return on_stacked("Pineq", ci, c_sys, var, on_para_eq_constraint)
         cls.calc_proj_eq_constraint_with_var = staticmethod(eqv)
         cls.calc_proj_ineq_constraint_with_var = staticmethod(inv)
         return self
